@@ -609,7 +609,7 @@ class C07(Check):
             def state(li):
                 l = locks[li]
                 h = l._locked
-                hd = None if not h else ("flag" if h is True else h.idx)
+                hd = None if (h is None or h is False) else ("flag" if h is True else h.idx)
                 return hd, sorted(t.idx for t in l._waiting)
             falsy = bool(case.get("falsy"))
             class T(recoco.BaseTask):
